@@ -310,7 +310,7 @@ class C07(Prop):
     thm_module = "H263V.Thm.C07"
     rule = ("Y lines: 256x1 pictures, luma 0..255 with one (Cb, Cr) pair per picture, through bt601::yuv420_to_rgba vs. the Lean "
             "model; quick: a 24x24 stratified grid of (Cb, Cr) pairs incl. the extremes (147,456 triples) plus random pairs plus every pair for which some luma puts a channel sum exactly on a rounding boundary; "
-            "thorough: all 65,536 pairs = all 2^24 triples; both tiers: rows whose neighbouring chroma samples differ (every pattern of {neutral, v} over the two Cb and two Cr samples of a 4-pixel group) - a pixel depends on its own triple only.  Non-trivial / distinct: distinct (Y,Cb,Cr) triples counted (256 per distinct pair).")
+            "thorough: all 65,536 pairs = all 2^24 triples; both tiers: rows whose neighbouring chroma samples differ (every pattern of {neutral, v} over the two Cb and two Cr samples of a 4-pixel group) - a pixel depends on its own triple only - and pictures 5, 6 and 7 wide in which every luma value lands in one of the 1..3 leftover columns (a subset of the pairs): the colour does not depend on the column.  Non-trivial / distinct: distinct (Y,Cb,Cr) triples counted (256 per distinct pair).")
     assumptions = ["little-endian target (the big-endian cfg branch of the byte interleave is not compiled here)",
                    "wide::i32x4 operations are lane-wise and wrap (modelled with explicit wrap32, proved not to occur)"]
 
@@ -348,6 +348,19 @@ class C07(Prop):
             for m in range(16):
                 c = [v if (m >> k) & 1 else 128 for k in range(4)]
                 out.append(yuv_line(256, 1, ys, [c[0], c[1]] * 64, [c[2], c[3]] * 64))
+        # position independence: the same triples in the 1..3 leftover columns of a width that is not a multiple of four
+        # (widths 5, 6, 7: every luma value lands in a leftover column of some row)
+        sub = pairs[:: max(1, len(pairs) // (200 if tier == "quick" else 4000))]
+        for k, (cb, cr) in enumerate(sub):
+            w = 5 + k % 3
+            left = w - 4
+            rows = (256 + left - 1) // left
+            rows += rows % 2
+            y = []
+            for r in range(rows):
+                y += [(r * 7) % 256] * 4 + [(r * left + j) % 256 for j in range(left)]
+            cw = (w + 1) // 2
+            out.append(yuv_line(w, rows, y, [cb] * (cw * (rows // 2)), [cr] * (cw * (rows // 2))))
         self._pairs = len(set(pairs))
         return out
 
